@@ -188,6 +188,8 @@ class ProgramText:
             parts.append("of=" + "+".join(refs))
         elif refs and refs[0][0] in "xq":
             parts[-1] = refs[0]
+        if "lcenum" in marks and "default-member" in marks:
+            return "enum-default-by-member-name:enum-name-starts-lowercase"
         for x in ("lcenum", "default-member", "default-number"):
             if x in marks:
                 parts.append(x)
@@ -481,30 +483,29 @@ SOUP = ["module", "enum", "struct", "interface", "const", "key", "require", "opt
         "\x00", "\xff", "#", "#includ", "@"]
 
 
-def raw_inputs(rng, n, valid_texts):
+def raw_inputs(rng, n, valid_texts, kinds=("random-bytes", "token-soup", "valid-cut", "valid-mutated")):
     """(class, bytes) pairs: random bytes, token soup, valid programs cut / with one character or token changed."""
     out = []
     for i in range(n):
-        r = i % 4
-        if r == 0:
+        kind = kinds[i % len(kinds)]
+        if kind == "random-bytes":
             m = rng.randrange(0, 60)
             if rng.random() < 0.5:
                 b = bytes(rng.randrange(256) for _ in range(m))
             else:
                 b = bytes(rng.choice(b"{};=<>,()[]\"#/*-.:_ \n\t0123456789abcxyzMEIS") for _ in range(m))
-            out.append(("random-bytes", b))
-        elif r == 1:
+            out.append((kind, b))
+        elif kind == "token-soup":
             m = rng.randrange(1, 40)
             s = " ".join(rng.choice(SOUP) for _ in range(m))
             if rng.random() < 0.5:
                 s = "module M { " + s
-            out.append(("token-soup", s.encode("utf-8", "surrogateescape") if isinstance(s, str) else s))
+            out.append((kind, s.encode("latin-1", "replace")))
         else:
             t = rng.choice(valid_texts)
             b = bytearray(t.encode("utf-8"))
-            if r == 2:
-                cut = rng.randrange(0, len(b) + 1)
-                out.append(("valid-cut", bytes(b[:cut])))
+            if kind == "valid-cut":
+                out.append((kind, bytes(b[:rng.randrange(0, len(b) + 1)])))
             else:
                 for _ in range(rng.choice([1, 1, 2])):
                     if not b:
@@ -520,7 +521,7 @@ def raw_inputs(rng, n, valid_texts):
                     else:
                         q = rng.randrange(len(b))
                         b[pos], b[q] = b[q], b[pos]
-                out.append(("valid-mutated", bytes(b)))
+                out.append((kind, bytes(b)))
     return out
 
 
